@@ -15,6 +15,13 @@ TRUSTED = ["kernel evaluation (decide +kernel) of the GF(2) certificates: x^(2^1
 ASSUMPTIONS = ["that after a ChaCha jump nothing of the old stream is served (buffer invalidated) is C03's keystream-attribution oracle; here the stream id arithmetic and the outputs are checked against the model"]
 
 
+def disagreement_is_failing(req, impl, model):
+    """word generators: every output and the final state are fixed by the property (jump = that many single steps). ChaCha: the property
+    fixes the stream id (own oracle); buffer position and serialised form are not its business."""
+    strip = lambda t: " ".join(x for x in t.split() if not x.startswith(("st:", "idx:")))
+    return req.startswith("word ") and strip(impl) != strip(model)
+
+
 def generate(r, tier, build):
     reqs = []
     n = 600 if tier == "quick" else 20000
